@@ -227,6 +227,9 @@ func (rn *runner) truncationSweeps() {
 			rn.sweepTrunc(k, r.name, b)
 		}
 	}
+	if b := enc["Frame/small"]; b != nil {
+		rn.sweepTrunc(rn.kinds["FrameRead"], "small-frame", b)
+	}
 	// embedded: a route entry inside QUEUED_STATE, truncated at every offset with a consistent entry length
 	qs := rn.kinds["QueuedState"]
 	tail := []byte{0, 0, 0, 0, 0, 0} // no withdraws, no node infos, no commands
